@@ -1142,8 +1142,101 @@ fn dispatch1(entry: &str, beh: &str, raw: &[u8]) -> String {
     format!("log={} result={} same={}", names.join(","), r, same)
 }
 
+#[cfg(feature = "arbitrary")]
+fn arb(t: &str, data: &[u8]) -> String {
+    use arbitrary::{Arbitrary, Unstructured};
+    let mut u = Unstructured::new(data);
+    fn fin<T: ToVal>(r: arbitrary::Result<T>, u: &Unstructured) -> String {
+        match r {
+            Ok(v) => format!("ok {} rest={}", v.to_val().show(), u.len()),
+            Err(e) => format!("err {:?}", e),
+        }
+    }
+    match t {
+        "rp" => {
+            let r = wa::PublicKeyCredentialRpEntity::arbitrary(&mut u);
+            fin(r, &u)
+        }
+        "user" => {
+            let r = wa::PublicKeyCredentialUserEntity::arbitrary(&mut u);
+            fin(r, &u)
+        }
+        "hmac" => {
+            let r = ga::HmacSecretInput::arbitrary(&mut u);
+            fin(r, &u)
+        }
+        "filtered" => {
+            let r = wa::FilteredPublicKeyCredentialParameters::arbitrary(&mut u);
+            fin(r, &u)
+        }
+        _ => "unknown-type".into(),
+    }
+}
+#[cfg(not(feature = "arbitrary"))]
+fn arb(_t: &str, _data: &[u8]) -> String {
+    "feature-off".into()
+}
+
+/// generate a request from raw bytes and exercise it: format, clone, compare, dispatch
+#[cfg(feature = "arbitrary")]
+fn arbreq(kind: &str, data: &[u8]) -> String {
+    use arbitrary::{Arbitrary, Unstructured};
+    use ctap1::Authenticator as _;
+    use ctap2::Authenticator as _;
+    let mut u = Unstructured::new(data);
+    let mk = || Beh { err2: None, err1: None, log: vec![] };
+    match kind {
+        "ctap2" => match ctap2::Request::arbitrary(&mut u) {
+            Ok(r) => {
+                let d = format!("{:?}", r);
+                let c = r.clone();
+                let eq = c == r;
+                let mut m = MockLb(mk());
+                let _ = m.call_ctap2(&r);
+                format!("ok valid eq={} debug_len_nonzero={} calls={}", eq, !d.is_empty(), m.0.log.len())
+            }
+            Err(e) => format!("err {:?}", e),
+        },
+        "ctap1" => match ctap1::Request::arbitrary(&mut u) {
+            Ok(r) => {
+                let d = format!("{:?}", r);
+                let c = r.clone();
+                let eq = c == r;
+                let mut m = MockLb(mk());
+                let _ = m.call_ctap1(&r);
+                format!("ok valid eq={} debug_len_nonzero={} calls={}", eq, !d.is_empty(), m.0.log.len())
+            }
+            Err(e) => format!("err {:?}", e),
+        },
+        _ => match ctap_types::authenticator::Request::arbitrary(&mut u) {
+            Ok(r) => {
+                let d = format!("{:?}", r);
+                let c = r.clone();
+                let eq = c == r;
+                let mut m = MockLb(mk());
+                match &r {
+                    ctap_types::authenticator::Request::Ctap1(x) => {
+                        let _ = m.call_ctap1(x);
+                    }
+                    ctap_types::authenticator::Request::Ctap2(x) => {
+                        let _ = m.call_ctap2(x);
+                    }
+                }
+                format!("ok valid eq={} debug_len_nonzero={} calls={}", eq, !d.is_empty(), m.0.log.len())
+            }
+            Err(e) => format!("err {:?}", e),
+        },
+    }
+}
+#[cfg(not(feature = "arbitrary"))]
+fn arbreq(_k: &str, _d: &[u8]) -> String {
+    "feature-off".into()
+}
+
 fn run(op: &str, a: &[&str]) -> String {
     match (op, a.len()) {
+        ("arb", 2) => arb(a[0], &opt_hex(a[1])),
+        ("arbreq", 2) => arbreq(a[0], &opt_hex(a[1])),
         ("dec2", 1) => {
             let data = unhex(a[0]);
             let out = match ctap2::Request::deserialize(&data) {
